@@ -19,10 +19,12 @@ PY = "/venv/bin/python"
 
 
 # ------------------------------------------------------------------ child side
-def _hook(log, name, raises):
+def _hook(log, name, raises, chdir=""):
     def fn(*a, **k):
         with open(log, "a") as f:
             f.write(name + "\n")
+        if chdir:
+            os.chdir(chdir)
         if raises:
             raise RuntimeError("verif: hook %s raises" % name)
 
@@ -34,13 +36,15 @@ def _tasks():
     from pydra.compose import python, shell, workflow
 
     @python.define
-    def Work(x: int, side: str, delay: float = 0.0, fail: bool = False, flaky: str = "") -> int:
+    def Work(x: int, side: str, delay: float = 0.0, fail: bool = False, flaky: str = "", chdir: str = "") -> int:
         """The task body: leaves one line per execution in the side file."""
         import os as _os
         import time as _time
 
         with open(side, "a") as f:
             f.write("%d\n" % _os.getpid())
+        if chdir:
+            _os.chdir(chdir)        # user code that moves the process and does not come back
         if delay:
             _time.sleep(delay)
         if flaky and _os.path.exists(flaky):
@@ -64,7 +68,7 @@ def build_task(cfg):
     kind = cfg.get("task", "python")
     if kind == "python":
         return t["python"](x=cfg.get("x", 3), side=cfg["side"], delay=cfg.get("delay", 0.0),
-                           fail=cfg.get("fail", False), flaky=cfg.get("flaky", ""))
+                           fail=cfg.get("fail", False), flaky=cfg.get("flaky", ""), chdir=cfg.get("chdir", ""))
     if kind == "workflow":
         return t["workflow"](x=cfg.get("x", 3), side=cfg["side"], delay=cfg.get("delay", 0.0))
     if kind == "shell":
@@ -112,7 +116,8 @@ def child_main():
         hooks = None
         if sc.get("hook_log"):
             r = sc.get("hook_raises", "")
-            hooks = TaskHooks(**{h: _hook(sc["hook_log"], h, r == h)
+            hooks = TaskHooks(**{h: _hook(sc["hook_log"], h, r == h,
+                                          sc.get("hook_chdir", "") if h == "post_run_task" else "")
                                  for h in ("pre_run", "post_run", "pre_run_task", "post_run_task")})
         obs = {}
         try:
@@ -231,13 +236,23 @@ class Gate:
                 return True
             cnt = self.lines()
             parked = [c.idx for c in alive if cnt[c.idx] > self.released[c.idx]]
+            try:
+                choose.alive = {c.idx for c in alive}
+            except AttributeError:
+                pass
+            pick = choose(parked, cnt) if parked else None
+            if parked and pick is None:
+                # the scripted child is not parked yet (still running, or blocked on the lock): wait for it
+                time.sleep(0.02)
+                continue
             if parked:
-                i = choose(parked, cnt)
+                i, settle = pick if isinstance(pick, tuple) else (pick, 0)
                 n = self.released[i] + 1
                 open(os.path.join(self.gate_dir, "c%d.%d" % (i, n)), "w").close()
                 self.released[i] = n
-                # give the released child a moment to reach its next checkpoint (or to block on the lock)
-                t_end = time.time() + 0.25
+                # give the released child a moment to reach its next checkpoint (or to block on the lock);
+                # `settle` seconds when the schedule needs it to get as far as it can before anybody else moves
+                t_end = time.time() + max(0.25, settle)
                 ch = [c for c in self.children if c.idx == i][0]
                 while time.time() < t_end and ch.poll() is None and self.lines()[i] <= n:
                     time.sleep(0.004)
@@ -318,8 +333,11 @@ def events_for(trace, children, key):
         if label == "job.pre_run_done":
             sub_no[i] = sub_no.get(i, -1) + 1
         sc = ch["subs"][min(sub_no.get(i, 0), len(ch["subs"]) - 1)]
-        if pending_body.pop(i, False) and label == "error.before" and sc.get("_body_raises"):
-            ev.append((i, "ABodyRaise"))
+        if pending_body.pop(i, False):
+            if sc.get("chdir"):
+                ev.append((i, "AChdir"))          # the body ran and moved the process
+            if label == "error.before" and sc.get("_body_raises"):
+                ev.append((i, "ABodyRaise"))
         if label == "job.pre_run_done":
             ev.append((i, "(APreRun %s %s)" % ("true" if sc.get("rerun") else "false", "true" if sc.get("_async") else "false")))
         else:
@@ -332,6 +350,8 @@ def events_for(trace, children, key):
         if inj and inj[0] == label and inj[1] == hits[(i, label)]:
             ev.append((i, "AExc"))
             pending_body.pop(i, None)
+        if label == "job.post_hook_done" and sc.get("hook_chdir"):
+            ev.append((i, "AChdir"))
         hr = sc.get("hook_raises")
         if hr == "pre_run_task" and label == ("job.populated" if sc.get("_async") else "job.cwd_changed"):
             ev.append((i, "APreHookRaise"))
@@ -401,6 +421,10 @@ def run_scenario(sc, workroot=None):
         if base.get("flaky"):
             base["flaky"] = os.path.join(wd, "flaky")
             open(base["flaky"], "w").close()
+        elsewhere = os.path.join(wd, "elsewhere")
+        os.makedirs(elsewhere)
+        if base.get("chdir"):
+            base["chdir"] = elsewhere
         if base.get("task") == "shell":
             base["script"] = os.path.join(wd, "body.sh")
             write_shell_body(base["script"], base)
@@ -423,7 +447,9 @@ def run_scenario(sc, workroot=None):
                     s = dict(base)
                     s.update(sd)
                     s["hook_log"] = os.path.join(wd, "hooks%d" % idx)
-                    s["_body_raises"] = bool(s.get("fail"))
+                    s["_body_raises"] = bool(s.get("_body_raises", s.get("fail")))
+                    if s.get("hook_chdir"):
+                        s["hook_chdir"] = elsewhere
                     subs.append(s)
                 rules = list(cd.get("rules", []))
                 if stage.get("gate"):
@@ -436,7 +462,28 @@ def run_scenario(sc, workroot=None):
                 pol = stage["gate"].get("policy", "random")
                 state = {"cur": None, "left": 0}
 
+                script = [list(x) for x in stage["gate"].get("script", [])]
+                base_idx = chs[0][0].idx
+
                 def choose(parked, cnt, rng=rng, pol=pol, state=state):
+                    # scripted prefix: [child position in the stage, number of checkpoints to pass, settle seconds]
+                    while script and script[0][1] <= 0:
+                        script.pop(0)
+                    if script:
+                        want = base_idx + script[0][0]
+                        if want not in getattr(choose, "alive", {want}):
+                            script.pop(0)                  # that child has finished
+                            return choose(parked, cnt)
+                        if want not in parked:
+                            if state.get("waited", 0) < 1500:      # ~30 s, then give the script up
+                                state["waited"] = state.get("waited", 0) + 1
+                                return None
+                            del script[:]
+                        else:
+                            state["waited"] = 0
+                            script[0][1] -= 1
+                            last = script[0][1] <= 0
+                            return (want, script[0][2] if (last and len(script[0]) > 2) else 0)
                     if pol == "roundrobin":
                         state["cur"] = min(parked, key=lambda i: (cnt[i], i))
                         return state["cur"]
